@@ -107,7 +107,7 @@ def run(facts, rep, tier, ctx):
         k += c10.marker_rules(facts, A, wa, prefix="R11.8", only=("R10.1", "R10.5", "R10.3"))
         k += _c09r.resolver_rules(facts, A, wa, rule="R11.8r")
         rep.floor("async-world transfer obligations", k, 120)
-    # R11.10 a copy whose source is the embedded (read-only) backend copies what that backend lists and serves: its directory index
+    # R11.11 a copy whose source is the embedded (read-only) backend copies what that backend lists and serves: its directory index
     # registers every ancestor of every file exactly once, under its own parent, and the observers answer from the index only
     # (C18 R18.3/R18.5) — a bogus root entry makes walk_dir visit a subtree twice and copy_dir fail half-way
     if any(b_.impl and b_.impl["self_ty"].startswith("impls::embedded::") for b_ in facts.bodies):
@@ -116,5 +116,5 @@ def run(facts, rep, tier, ctx):
         _c18e.run(facts, scr_e, "quick", ctx)
         for o in scr_e.obligations:
             if o["rule"] in ("R18.3", "R18.5"):
-                rep.ob("R11.10", o["fn"], o["key"].split("|")[2], o["ok"], o["detail"], o["loc"])
+                rep.ob("R11.11", o["fn"], o["key"].split("|")[2], o["ok"], o["detail"], o["loc"])
     rep.assume("copy_dir/move_dir into the source's own subtree is excluded by the property")
